@@ -164,12 +164,33 @@ class TrajModel:
 def random_unit_quat(rng, mode="uniform"):
     """seeded quaternion; modes: uniform, near identity, near pi"""
     import math
+    if mode == "identity":
+        return [1.0, 0.0, 0.0, 0.0]
     if mode == "uniform":
         while True:
             q = [rng.gauss(0, 1) for _ in range(4)]
             n = math.sqrt(sum(x * x for x in q))
             if n > 1e-3:
                 return [x / n for x in q]
+    if mode == "half_turn":
+        # exactly (or within 1e-9 of) 180 degrees: w == 0
+        base = rng.choice([[0.0, 1.0, 0.0, 0.0], [0.0, 0.0, 1.0, 0.0],
+                           [0.0, 0.0, 0.0, 1.0], None, "near"])
+        if base is None:
+            v = [rng.gauss(0, 1) for _ in range(3)]
+            n = math.sqrt(sum(x * x for x in v)) or 1.0
+            return [0.0] + [x / n for x in v]
+        if base == "near":
+            ang = math.pi - rng.choice([1e-9, 1e-8, 3e-7, 1e-12])
+            s = math.sin(ang / 2)
+            return [math.cos(ang / 2), 0.0, 0.0, s]
+        return base
+    if mode == "quarter":
+        k = rng.randrange(3)
+        h = math.sqrt(0.5)
+        q = [h, 0.0, 0.0, 0.0]
+        q[1 + k] = h * rng.choice([1.0, -1.0])
+        return q
     ax = [rng.gauss(0, 1) for _ in range(3)]
     n = math.sqrt(sum(x * x for x in ax)) or 1.0
     ax = [x / n for x in ax]
